@@ -253,6 +253,12 @@ pub fn tree_worker(prop: &str, tier: &str, k: usize, n: usize, ctx: &mut Ctx) {
           ctx.count("wild_combined_trees");
           tc::c01(ctx, t);
         });
+        for_each_wild_combined_huge_columns(&mut st, &mut |t| {
+          crate::set_current_case(t);
+          ctx.states += 1;
+          ctx.count("wild_combined_trees");
+          tc::c01(ctx, t);
+        });
         crate::clear_current_case();
       }
       // C01 quantifies over ANY attached map: also maps whose segments are not sorted
@@ -308,7 +314,30 @@ pub fn tree_worker(prop: &str, tier: &str, k: usize, n: usize, ctx: &mut Ctx) {
       });
       crate::clear_current_case();
     }
-    "C04" => sweep(ctx, &provenance_scope(tier), k, n, &no_cached_under_replace, &mut |c, t| tc::c04(c, t)),
+    "C04" => {
+      sweep(ctx, &provenance_scope(tier), k, n, &no_cached_under_replace, &mut |c, t| tc::c04(c, t));
+      // one cached node that holds the SAME original text twice on one output line with raw text in
+      // between (a helper used twice): the replayed map repeats an original location after a close
+      let mut st = Striper::new(k, n);
+      let o = |t: &str| Term::orig(t, &trees::file_for(t, trees::TEXTS_FULL));
+      for a in ["a", "a;b", "ab\n", "a\nb"] {
+        for r in ["x", "", " ", "\n", "x\n"] {
+          for b in ["a", "a;b", "ab\n"] {
+            if !st.mine() {
+              continue;
+            }
+            let inner = Term::concat(vec![o(a), Term::raw(r), o(a), Term::raw(r), o(b)]);
+            for t in [Term::cached(inner.clone()), Term::concat(vec![Term::cached(inner.clone()), o("a\nb")]), Term::concat(vec![Term::raw("q"), Term::cached(Term::concat(vec![o(a), Term::raw(r), o(a)]))])] {
+              crate::set_current_case(&t);
+              ctx.states += 1;
+              ctx.count("cached_repeated_original_trees");
+              tc::c04(ctx, &t);
+            }
+          }
+        }
+      }
+      crate::clear_current_case();
+    }
     "C07" => {
       sweep(ctx, &general_scope(tier), k, n, &all, &mut |c, t| {
         tc::c07_views(c, t);
@@ -798,6 +827,35 @@ pub fn c06_bounds(tier: &str) -> Value {
 
 // ---------------------------------------------------------------- C17 (trees) / C19 (trees)
 
+/// Combined maps with columns near u32::MAX on both sides of the composition: the resolved column
+/// is the inner original column plus the offset of the outer position into the inner chunk.
+/// (Kept apart from `for_each_wild_combined`, whose members are numbered for the quick-tier stride.)
+pub fn for_each_wild_combined_huge_columns(st: &mut Striper, visit: &mut dyn FnMut(&Term)) {
+  let gen = "ab\nc";
+  let original = "xy\nz";
+  for (ocol, icol) in [(1u32, u32::MAX), (u32::MAX, 2), (u32::MAX, u32::MAX), (u32::MAX - 1, 1), (1 << 31, 1 << 31), (u32::MAX, 0)] {
+    for igc in [0u32, 1] {
+      for opt in 0..4u8 {
+        if !st.mine() {
+          continue;
+        }
+        let mut om = MapSpec::new(vec![Seg { gl: 1, gc: 0, orig: Some((0, 1, ocol, None)) }], &["inner.js", "o1"], None, &["ab", "zz"]);
+        om.contents = Some(vec![original.to_string(), "other".into()]);
+        let im = MapSpec::new(vec![Seg { gl: 1, gc: igc, orig: Some((0, 1, icol, Some(0))) }], &["x0", "x1"], if opt & 1 == 0 { None } else { Some(&["ab\ncd", "q"]) }, &["in0"]);
+        let t = Term::Sms(Box::new(SmsSpec {
+          value: gen.to_string(),
+          name: "inner.js".into(),
+          map: om,
+          original_source: Some(original.to_string()),
+          inner: Some(im),
+          remove: opt & 2 != 0,
+        }));
+        visit(&t);
+      }
+    }
+  }
+}
+
 /// SourceMapSource with inner map where segments, source and name indices point outside text or tables.
 pub fn for_each_wild_combined(st: &mut Striper, visit: &mut dyn FnMut(&Term)) {
   use crate::term::O4;
@@ -1221,6 +1279,19 @@ pub fn c17_tree_worker(tier: &str, k: usize, n: usize, ctx: &mut Ctx) {
   }
   let all = |_: &Term| true;
   sweep(ctx, &wild_scope(tier), k, n, &all, &mut |c, t| tc::all_methods_return(c, t));
+  {
+    let mut st = Striper::new(k, n);
+    for_each_wild_combined_huge_columns(&mut st, &mut |t| {
+      crate::set_current_case(t);
+      ctx.states += 1;
+      ctx.count("wild_combined_huge_column_trees");
+      tc::all_methods_return(ctx, t);
+      let w2 = Term::concat(vec![Term::orig("q\n", "q.js"), t.clone()]);
+      crate::set_current_case(&w2);
+      tc::all_methods_return(ctx, &w2);
+    });
+    crate::clear_current_case();
+  }
   let mut st = Striper::new(k, n);
   let mut wc = 0u64;
   for_each_wild_combined(&mut st, &mut |t| {
